@@ -25,6 +25,7 @@ import Proofs.Structure2
 import Props.C18
 import Proofs.SplitSuccess
 import Proofs.JoinSuccess
+import Proofs.WrapSuccess
 namespace PM.C12
 open PM
 
@@ -735,5 +736,174 @@ example : joinTsSchema.apply (.replace 3 5 Slice.empty true) joinTsDoc = .error 
     inRange, depthAt, Slice.wf, spineL, spineR, outer, atLevel, twoWay,
     splitRight, Schema.close, fromArray, addNodes, addNode, hv,
     Except.map, Schema.compatibleContent]
+
+/-! ### WRAP-BEGIN -/
+
+/-! ### an approved wrap applies
+
+    The unguarded statement
+      `findWrappingRange S doc a b depth ty = some (some chain) → ws.map (·.1) = chain →
+       wrapStep S doc a b depth ws = .ok st → ∃ doc', S.apply st doc = .ok doc'`
+    is **false** for the model and for the code alike (upstream too; finding C12-wrap-ignores-marks):
+    `find_wrapping_inside` walks the innermost wrapper's automaton over the *types* of the nodes of the range, the
+    wrap itself (`ReplaceAroundStep.apply` → `Slice.insert_at` → `insert_into`) asks that wrapper
+    `can_replace(0, 0, nodes)`, which also wants it to allow their *marks*.  In a schema whose `doc` allows marks
+    on its block children (`marks: "_"`), `doc(em(p("a")))`: `find_wrapping(range of the paragraph, quote)`
+    approves `[quote]` and `Transform.wrap` raises `TransformError("Content does not fit in gap")`
+    (`wrapCex…` below).  `wrapGuard` (PM/StructEdit.lean) is that test (and "no wrapper type is a leaf type",
+    which `find_wrapping` guarantees in a compiled schema).  Nothing else is needed: no `TextStable` (the run's
+    neighbours get an element node between them, nothing merges), no alignment (both ends are child
+    boundaries), and an empty run is fine. -/
+
+/-- **`find_wrapping` approves ∧ `wrapGuard` ⇒ `wrap` succeeds** with a schema-valid document that keeps the
+    text and leaf nodes: valid normal-form document; a node range as `block_range` builds it (`from ≤ to`,
+    `to` inside the node at the range's depth, both ends at child boundaries of that node); wrappers of the
+    approved types (any attributes `wrap` accepts).  (`depth ≤` both depths is implied by the approval.) -/
+theorem findWrapping_wrap_applies (S : Schema) (doc : Node) (a b depth : Nat) (ty : TypeId)
+    (chain : List TypeId) (ws : List (TypeId × Attrs)) (st : Step) (rf rt : RPos)
+    (hv : C01.Valid S doc) (hn : fnorm doc.kids = true)
+    (hf : doc.resolve a = some rf) (ht : doc.resolve b = some rt)
+    (hab : a ≤ b) (hend : b ≤ rf.end_ depth)
+    (hfb : depth < rf.depth ∨ rf.textOffset = 0) (htb : depth < rt.depth ∨ rt.textOffset = 0)
+    (hg : wrapGuard S doc a b depth ws = true)
+    (hc : findWrappingRange S doc a b depth ty = some (some chain)) (hws : ws.map (·.1) = chain)
+    (hb : wrapStep S doc a b depth ws = .ok st) :
+    ∃ doc', S.apply st doc = .ok doc' ∧ C01.Valid S doc' ∧
+      (ftoks doc'.kids).filter Tok.isContent = (ftoks doc.kids).filter Tok.isContent := by
+  have hc' : findWrappingR S rf rt depth ty = some (some chain) := by simpa [findWrappingRange, hf, ht] using hc
+  have hg' : wrapGuardR S rf rt depth ws = true := by simpa [wrapGuard, hf, ht] using hg
+  have hb' : wrapStepR S rf rt depth ws = .ok st := by simpa [wrapStep, hf, ht] using hb
+  obtain ⟨hdf, hdt, hchild⟩ := findWrappingR_child S rf rt depth ty chain hc'
+  have hl : ∀ w ∈ ws, (S.nodeType w.1).isLeaf = false := by
+    simp only [wrapGuardR, Bool.and_eq_true, List.all_eq_true, Bool.not_eq_true'] at hg'
+    exact hg'.1
+  cases doc with
+  | text s m =>
+    exfalso
+    have R := resolve_resolved hf
+    have hd := R.depth_eq
+    simp only [Node.kids, depthAt] at hd
+    have : depth = 0 := by omega
+    subst this
+    simp [R.node_zero, Node.kids] at hchild
+  | leaf t' a' m =>
+    exfalso
+    have R := resolve_resolved hf
+    have hd := R.depth_eq
+    simp only [Node.kids, depthAt] at hd
+    have : depth = 0 := by omega
+    subst this
+    simp [R.node_zero, Node.kids] at hchild
+  | elem ty0 a0 m0 K =>
+    obtain ⟨s, e, as, mid, rfl, hsl, hins, hpay, doc', hap⟩ :=
+      wrap_applies S ty0 a0 m0 K a b depth ty chain ws rf rt st hf ht hv hn hab hdf hdt hend hfb htb hc' hws hg' hb'
+    have hpv : C01.PayloadValid S (.elem ty0 a0 m0 K)
+        (.replaceAround s e s e ⟨wrapNest as [], 0, 0⟩ as.length true) := by
+      intro gap ins h1 h2
+      rw [hsl] at h1
+      simp only [Except.ok.injEq] at h1
+      subst h1
+      rw [hins] at h2
+      simp only [Except.ok.injEq, Option.some.injEq] at h2
+      subst h2
+      simpa [openValid, rightOpenValid] using hpay
+    exact ⟨doc', hap, C01.apply_valid S _ _ doc' hv hpv hap, wrap_keeps_content S _ doc' a b depth ws _ hab hl hb hap⟩
+
+/-- **… and the step gets built** when the wrappers pass `wrap`'s own test (`wrapBuilds`: each accepts the next as its
+    only child, attributes complete): approval ∧ `wrapGuard` ∧ `wrapBuilds` ⇒ `Transform.wrap` succeeds.
+    Without `wrapBuilds` the statement is **false**, for the model and for the code alike (upstream algorithm):
+    `compute_wrapping` stops as soon as the last wrapper found accepts the target as *first* child.  Schema
+    `doc: block+`, `p: text*` (block), `pair: item item` (block), `item: p+`; `doc(p("a"))`:
+    `find_wrapping(range of the paragraph, item)` approves `[pair, item]` and `Transform.wrap` raises
+    `TransformError("Wrapper type given to Transform.wrap does not form valid content of its parent wrapper")`
+    (`wrapPairSchema` below). -/
+theorem findWrapping_wrap_succeeds (S : Schema) (doc : Node) (a b depth : Nat) (ty : TypeId)
+    (chain : List TypeId) (ws : List (TypeId × Attrs)) (rf rt : RPos)
+    (hv : C01.Valid S doc) (hn : fnorm doc.kids = true)
+    (hf : doc.resolve a = some rf) (ht : doc.resolve b = some rt)
+    (hab : a ≤ b) (hend : b ≤ rf.end_ depth)
+    (hfb : depth < rf.depth ∨ rf.textOffset = 0) (htb : depth < rt.depth ∨ rt.textOffset = 0)
+    (hg : wrapGuard S doc a b depth ws = true) (hbuild : wrapBuilds S ws = true)
+    (hc : findWrappingRange S doc a b depth ty = some (some chain)) (hws : ws.map (·.1) = chain) :
+    ∃ st doc', wrapStep S doc a b depth ws = .ok st ∧ S.apply st doc = .ok doc' ∧ C01.Valid S doc' ∧
+      (ftoks doc'.kids).filter Tok.isContent = (ftoks doc.kids).filter Tok.isContent := by
+  have hc' : findWrappingR S rf rt depth ty = some (some chain) := by simpa [findWrappingRange, hf, ht] using hc
+  obtain ⟨hdf, hdt, _⟩ := findWrappingR_child S rf rt depth ty chain hc'
+  obtain ⟨gs, hgs⟩ := (resolve_resolved hf).before_isSome depth hdf
+  obtain ⟨ge, hge⟩ := (resolve_resolved ht).after_isSome depth hdt
+  have hb : ∃ st, wrapStep S doc a b depth ws = .ok st := by
+    unfold wrapBuilds at hbuild
+    cases hw : wrapContent S ws with
+    | error e => simp [hw] at hbuild
+    | ok content =>
+      exact ⟨.replaceAround gs ge gs ge ⟨content, 0, 0⟩ ws.length true,
+        by simp [wrapStep, hf, ht, wrapStepR, hw, hgs, hge]⟩
+  obtain ⟨st, hb⟩ := hb
+  obtain ⟨doc', h1, h2, h3⟩ := findWrapping_wrap_applies S doc a b depth ty chain ws st rf rt hv hn hf ht hab hend
+    hfb htb hg hc hws hb
+  exact ⟨st, doc', hb, h1, h2, h3⟩
+
+/-- a non-trivial instance of all hypotheses: wrapping the second paragraph of `exDoc` in a blockquote -/
+example : ∃ doc', exSchema.apply (.replaceAround 4 7 4 7 ⟨[.elem 1 [] [] []], 0, 0⟩ 1 true) exDoc = .ok doc' ∧
+    C01.Valid exSchema doc' ∧
+    (ftoks doc'.kids).filter Tok.isContent = (ftoks exDoc.kids).filter Tok.isContent :=
+  findWrapping_wrap_applies exSchema exDoc 5 6 1 1 [1] [(1, [])] _
+    ((exDoc.resolve 5).get rfl) ((exDoc.resolve 6).get rfl) rfl rfl (Option.some_get _).symm (Option.some_get _).symm
+    (by decide) (by decide) (by decide) (by decide) rfl rfl rfl rfl
+example : wrapBuilds exSchema [(1, [])] = true := by rfl
+
+/-- the guard is needed: `doc` allows marks on its children (`marks: "_"`), `quote` allows none -/
+private def wrapCexSchema : Schema :=
+  { nodes := #[exNT "doc" false false blocksDfa, { exNT "quote" false false blocksDfa with markSet := some [] },
+      exNT "p" false true #[⟨true, [(3, 0)]⟩], exNT "text" true false #[⟨true, []⟩]],
+    marks := #[⟨"em", [0], true, []⟩], top := 0, textTy := 3 }
+
+/-- `doc(em(p("a")))` -/
+private def wrapCexDoc : Node := .elem 0 [] [] [.elem 2 [] [⟨0, []⟩] [.text [97] []]]
+
+example : C01.Valid wrapCexSchema wrapCexDoc := by rfl
+example : fnorm wrapCexDoc.kids = true := by rfl
+/-- the helper approves (the block range of the paragraph: `from = 1`, `to = 2`, depth 0) … -/
+example : findWrappingRange wrapCexSchema wrapCexDoc 1 2 0 1 = some (some [1]) := by rfl
+/-- … the guard does not hold … -/
+example : wrapGuard wrapCexSchema wrapCexDoc 1 2 0 [(1, [])] = false := by rfl
+/-- … and the wrap is refused: "Content does not fit in gap" -/
+example : wrapStep wrapCexSchema wrapCexDoc 1 2 0 [(1, [])] =
+    .ok (.replaceAround 0 3 0 3 ⟨[.elem 1 [] [] []], 0, 0⟩ 1 true) := by rfl
+example : wrapCexSchema.apply (.replaceAround 0 3 0 3 ⟨[.elem 1 [] [] []], 0, 0⟩ 1 true) wrapCexDoc
+    = .error .failed := by
+  have hc0 : contentBetween wrapCexDoc 0 0 = some false := by
+    obtain ⟨r, hr⟩ := resolve_isSome wrapCexDoc 0 (by decide)
+    exact contentBetween_empty _ _ r hr
+  have hc3 : contentBetween wrapCexDoc 3 3 = some false := by
+    obtain ⟨r, hr⟩ := resolve_isSome wrapCexDoc 3 (by decide)
+    exact contentBetween_empty _ _ r hr
+  have hs : wrapCexDoc.slice 0 3 = .ok ⟨[.elem 2 [] [⟨0, []⟩] [.text [97] []]], 0, 0⟩ :=
+    sliceKids_children (pre := []) (mid := [.elem 2 [] [⟨0, []⟩] [.text [97] []]]) (post := []) (Lvl.here 0 _) (by rfl)
+  have hcr : wrapCexSchema.canReplace 1 [] 0 0 [.elem 2 [] [⟨0, []⟩] [.text [97] []]] 0 1 = some false := by decide
+  have hi : Slice.insertAt wrapCexSchema ⟨[.elem 1 [] [] []], 0, 0⟩ 1 [.elem 2 [] [⟨0, []⟩] [.text [97] []]]
+      = .ok none := by
+    simp [Slice.insertAt, insertInto, flatInsert, hcr]
+  simp [Schema.apply, hc0, hc3, hs, hi]
+
+/-- `wrapBuilds` is needed: `doc: block+`, `pair: item item`, `item: p+`, `p: text*`; `doc(p("a"))` -/
+private def wrapPairSchema : Schema :=
+  { nodes := #[exNT "doc" false false #[⟨false, [(1, 1), (3, 1)]⟩, ⟨true, [(1, 1), (3, 1)]⟩],
+      exNT "pair" false false #[⟨false, [(2, 1)]⟩, ⟨false, [(2, 2)]⟩, ⟨true, []⟩],
+      exNT "item" false false #[⟨false, [(3, 1)]⟩, ⟨true, [(3, 1)]⟩],
+      exNT "p" false true #[⟨true, [(4, 0)]⟩], exNT "text" true false #[⟨true, []⟩]],
+    marks := #[], top := 0, textTy := 4 }
+
+private def wrapPairDoc : Node := .elem 0 [] [] [.elem 3 [] [] [.text [97] []]]
+
+example : C01.Valid wrapPairSchema wrapPairDoc := by rfl
+/-- the helper approves `[pair, item]`, the marks guard holds … -/
+example : findWrappingRange wrapPairSchema wrapPairDoc 1 2 0 2 = some (some [1, 2]) := by rfl
+example : wrapGuard wrapPairSchema wrapPairDoc 1 2 0 [(1, []), (2, [])] = true := by rfl
+/-- … and `wrap` refuses to build the step: `pair` does not take a single `item` -/
+example : wrapBuilds wrapPairSchema [(1, []), (2, [])] = false := by rfl
+example : wrapStep wrapPairSchema wrapPairDoc 1 2 0 [(1, []), (2, [])] = .error .failed := by rfl
+
+/-! ### WRAP-END -/
 
 end PM.C12
